@@ -65,3 +65,23 @@ Example C04_example :
   | _, _ => False
   end.
 Proof. vm_compute. split; reflexivity. Qed.
+
+(* Contrapositive, as the property words it: if anything exchanged in the clear was modified,
+   inserted or removed in transit (either direction), the first protected frame - whatever the
+   relay does to its header and IV - fails to authenticate. *)
+Theorem C04_tamper_rejected :
+  forall (opsA opsB : list cop) (A B : stream) (k ivA ivB : bytes) (A1 B1 : stream)
+         (d : bytes) (fl : N) (A2 : stream) (f f' : frame) (ivo : option bytes),
+    clear_run new_stream opsA = Some A -> clear_run new_stream opsB = Some B ->
+    set_key A k ivA = SOk A1 -> set_key B k ivB = SOk B1 ->
+    send_frame A1 d fl = (A2, SOk f) ->
+    (exists ivo0 ct, f_body f = Ct ivo0 ct /\ f_body f' = Ct ivo ct) ->
+    (sent_bytes opsA <> recvd_bytes opsB \/ recvd_bytes opsA <> sent_bytes opsB) ->
+    exists e, snd (recv_frame_we B1 f') = SErr e.
+Proof.
+  intros opsA opsB A B k ivA ivB A1 B1 d fl A2 f f' ivo RA RB KA KB Hs Hct Hdiff.
+  destruct (recv_frame_we B1 f') as [B2 [x|e]] eqn:Er; [|eexists; reflexivity].
+  exfalso. destruct (binding_e2e _ _ _ _ _ _ _ _ _ _ _ _ _ _ _ _ _ RA RB KA KB Hs Hct Er) as [H1 H2].
+  destruct Hdiff as [Hd|Hd]; contradiction.
+Qed.
+Print Assumptions C04_tamper_rejected.
